@@ -7,6 +7,7 @@ import (
 	"strings"
 	"time"
 
+	carv2 "github.com/ipld/go-car/v2"
 	"github.com/ipld/go-car/v2/storage"
 	"github.com/ipld/go-car/v2/storage/deferred"
 	"verif/sim"
@@ -22,18 +23,32 @@ func RunC20(t *Trace, st *Stats) *Violation {
 	defer func() { sim.CurrentFS = prevFS }()
 	cfg := t.Cfg
 	roots := cfg.RootCids()
+	// targets: "stream" = plain io.Writer; "stream-wa" = a stream that also offers io.WriterAt (an
+	// *os.File the caller opened), optionally asked for CARv2 with WriteAsCarV1(false); "path".
+	streamWA := cfg.Store == "stream-wa"
 	stream := cfg.Store == "stream"
-	if stream {
-		cfg.CarV1 = true
+	wantV2 := streamWA && t.Extra != nil && t.Extra["stream_v2"] == true
+	opts := t.Cfg.Options()
+	if stream || streamWA {
+		cfg.CarV1 = !wantV2
+		cfg.Store = "stream"
+		if wantV2 {
+			opts = append(opts, carv2.WriteAsCarV1(false))
+		}
 	}
+	directOpts := cfg.Options()
 	env := NewEnv() // deferred target
 	sim.CurrentFS = env.FS
 	sink := sim.NewSink()
+	wadisk := sim.NewDisk("stream-with-writerat")
 	var dw *deferred.DeferredCarWriter
-	if stream {
-		dw = deferred.NewDeferredCarWriterForStream(sink, roots, t.Cfg.Options()...)
-	} else {
-		dw = deferred.NewDeferredCarWriterForPath(env.Path, roots, t.Cfg.Options()...)
+	switch {
+	case stream:
+		dw = deferred.NewDeferredCarWriterForStream(sink, roots, opts...)
+	case streamWA:
+		dw = deferred.NewDeferredCarWriterForStream(sim.NewFile(wadisk), roots, opts...)
+	default:
+		dw = deferred.NewDeferredCarWriterForPath(env.Path, roots, opts...)
 	}
 	// direct twin, constructed at the first put
 	var direct storage.WritableCar
@@ -48,6 +63,9 @@ func RunC20(t *Trace, st *Stats) *Violation {
 	targetBytes := func() ([]byte, bool) {
 		if stream {
 			return sink.Buf, true
+		}
+		if streamWA {
+			return wadisk.MustBytes(), true
 		}
 		d := env.Disk()
 		if d == nil {
@@ -136,9 +154,9 @@ func RunC20(t *Trace, st *Stats) *Violation {
 				started = true
 				var derr error
 				if stream {
-					direct, derr = storage.NewWritable(dsink, roots, cfg.Options()...)
+					direct, derr = storage.NewWritable(dsink, roots, directOpts...)
 				} else {
-					direct, derr = storage.NewWritable(sim.NewFile(ddisk), roots, cfg.Options()...)
+					direct, derr = storage.NewWritable(sim.NewFile(ddisk), roots, directOpts...)
 				}
 				if derr != nil {
 					panic(&InfraError{"direct writer: " + derr.Error()})
@@ -174,10 +192,10 @@ func RunC20(t *Trace, st *Stats) *Violation {
 		// invariants after every step
 		tb, exists := targetBytes()
 		if !started {
-			if stream && sink.WriteCalls != 0 {
-				return viol("deferred/not-lazy/stream-written", "after op #%d %s the stream has received %d writes although no Put happened yet", i, op.Kind, sink.WriteCalls)
+			if (stream && sink.WriteCalls != 0) || (streamWA && wadisk.WriteCalls != 0) {
+				return viol("deferred/not-lazy/stream-written", "after op #%d %s the stream has received %d writes although no Put happened yet", i, op.Kind, sink.WriteCalls+wadisk.WriteCalls)
 			}
-			if !stream && (exists || env.FS.Creates != 0) {
+			if !stream && !streamWA && (exists || env.FS.Creates != 0) {
 				return viol("deferred/not-lazy/file-created", "after op #%d %s the output file exists although no Put happened yet", i, op.Kind)
 			}
 			continue
@@ -199,13 +217,17 @@ func RunC20(t *Trace, st *Stats) *Violation {
 
 func GenC20(seed uint64, run int) *Trace {
 	r := RunRng(seed, "C20", "session", run)
-	target := Pick(r, []string{"stream", "path"})
+	target := Pick(r, []string{"stream", "stream-wa", "path", "path"})
 	cfg := GenConfig(r, target)
-	if target == "stream" {
-		cfg.CarV1 = false // the constructor forces CARv1 itself
-		cfg.DataPad, cfg.IndexPad = 0, 0
-	}
 	t := &Trace{Prop: "C20", Engine: "session", Seed: seed, Run: run, Cfg: cfg}
+	if target == "stream" || target == "stream-wa" {
+		t.Cfg.CarV1 = false // the constructor forces CARv1 itself ...
+		if target == "stream-wa" && r.Bool() {
+			t.Extra = map[string]any{"stream_v2": true} // ... unless the caller overrides it on a stream that can WriteAt
+		} else {
+			t.Cfg.DataPad, t.Cfg.IndexPad = 0, 0
+		}
+	}
 	alpha := genAlphabet(r, r.Range(1, 5), r.Chance(1, 10))
 	n := r.Range(1, 14)
 	for i := 0; i < n; i++ {
@@ -232,12 +254,12 @@ func init() {
 			Prop: "C20", Level: "exploration", Engine: "session",
 			Runs:   tierPick(tier, 300000, 15000000),
 			Budget: tierPick(tier, 45*time.Second, 10*time.Minute),
-			Rule: "histories of OnPut/Has/Put/Close (and calls after Close) on a deferred writer whose target is a simulated stream (call-logging sink) or a path in the simulated file system; after every step: zero stream writes and no file before the first Put attempt, afterwards target bytes equal a directly constructed storage.NewWritable fed the same puts; callback log per Put equals the registration-order model; ErrClosed after Close. " +
+			Rule: "histories of OnPut/Has/Put/Close (and calls after Close) on a deferred writer whose target is a simulated plain stream (call-logging sink), a stream that also offers io.WriterAt (optionally asked for CARv2), or a path in the simulated file system; after every step: zero stream writes and no file before the first Put attempt, afterwards target bytes equal a directly constructed storage.NewWritable fed the same puts; callback log per Put equals the registration-order model; ErrClosed after Close. " +
 				"Non-trivial = at least one Put attempted; distinct = distinct (options, op string)",
 			Gen: GenC20, Exec: RunC20, Minimise: true,
 			Assume:       []string{"a Put on an already closed writer is not required to fire callbacks", "storage.NewWritable is the 'directly constructed writer' of the statement"},
 			Real:         realAll, Stub: []string{"output stream (sim.Sink)", "file system (sim.FS / sim.File substituted for os.OpenFile / os.File in storage/deferred)"}, Schedule: "single task",
-			ExpectProbes: []string{"c20:target=stream", "c20:target=path"},
+			ExpectProbes: []string{"c20:target=stream", "c20:target=stream-wa", "c20:target=path"},
 		}
 	})
 }
